@@ -58,6 +58,10 @@ type c15session struct {
 	Progs    map[string]*hs.Prog
 	Steps    [][]byte
 	Kinds    []string
+	// TempN > 0: step TempStep reaches the server in TempN+1 pieces with a temporary (timeout) read error
+	// between them. Whether the server gives the connection up there or resumes is its own business - as
+	// long as it does the same whoever else is connected.
+	TempStep, TempN int
 }
 
 func c15gen(rng *core.Rng, tag string, custom bool) c15session {
@@ -314,8 +318,19 @@ func c15run(env *hs.Env, s c15session, yield func()) (r c15result, cl *hs.Client
 	}
 	sort.Strings(ps)
 	r.Startup = collapse(pg.Types(msgs)) + " " + strings.Join(ps, ",")
-	for _, in := range s.Steps {
-		out, closed := cl.Step(in)
+	for i, in := range s.Steps {
+		var out []byte
+		var closed bool
+		if s.TempN > 0 && i == s.TempStep && len(in) > s.TempN {
+			var cuts []int
+			for k := 1; k <= s.TempN; k++ {
+				cuts = append(cuts, k*len(in)/(s.TempN+1))
+			}
+			cl.C.SendCutTemp(in, cuts)
+			out, closed = cl.Wait()
+		} else {
+			out, closed = cl.Step(in)
+		}
 		r.Outs = append(r.Outs, out)
 		if cl.Hung {
 			r.Err = "hang"
@@ -434,6 +449,10 @@ func (ch c15) Run(c *core.Ctx) {
 			case 2, 3:
 				sessions[i].User = "detach_" + sessions[i].User // its middleware detaches the context: whatever then fails, fails alone and together alike
 			}
+			if g%3 == 1 && rng.Intn(2) == 0 && len(sessions[i].Steps) > 0 {
+				// in every third group about half of the connections meet temporary read errors
+				sessions[i].TempStep, sessions[i].TempN = rng.Intn(len(sessions[i].Steps)), 1+rng.Intn(3)
+			}
 		}
 		cs := map[string]any{"group": g, "sessions": n, "custom_type": custom}
 		// solo references: one fresh server, sessions one after another
@@ -458,6 +477,9 @@ func (ch c15) Run(c *core.Ctx) {
 			for _, e := range solo[i].RowErrs {
 				c.Violate("custom-type", "row rejected in solo run: "+normErr(e), fmt.Sprintf("group %d session %d kinds %v: %s", g, i, s.Kinds, e), cs)
 				bad = true
+			}
+			if s.TempN > 0 {
+				c.Count("sessions_with_temporary_read_errors", 1)
 			}
 			for _, k := range s.Kinds {
 				switch k {
